@@ -67,7 +67,7 @@ var whitelist = []string{
 	"github.com/henrylee2cn/goutil/coarsetime.",
 	"github.com/xtaci/kcp-go/v5.(*TimedSched)",
 	"github.com/henrylee2cn/goutil/pool.(*GoPool).cleaner",
-	"github.com/henrylee2cn/goutil/pool.(*GoPool).Start", // cleaner loop closure
+	"github.com/henrylee2cn/goutil/pool.(*GoPool).start",
 	"os/signal.",
 	"github.com/henrylee2cn/erpc/v6/plugin/overloader.(*qpsLimiter).startTicker",
 	"verifharness/quiesce.",
